@@ -347,6 +347,8 @@ theorem topup_owed_until_queued : Amqp.Cancel.topupResetLast = true := by decide
 /-- generated obligations: what `attached` / `resume` (the count of the sender's attach, as it is) and
     `dispose k` (k added to the processed count) assume of the source -/
 theorem source_attach_takes_the_senders_count : attachTakesTheSendersCount = true := by decide
+theorem source_credit_taken_before_decoding : creditTakenBeforeDecoding = true := by decide
+
 theorem source_batch_counts_every_delivery : batchCountsEveryDelivery = true := by decide
 
 /-- **resume_reports_the_new_count.** After a detach and a resumption (nothing queued) the flow that
